@@ -15,3 +15,6 @@ def run(ctx):
         vlib.tlc_must_pass(res, "Chan C03")
         ctx.add_model(res)
     stages.chan_family(ctx, ["C03."], lambda s: len(s["puts"]) > 0)
+    if not ctx.quick():
+        # the repository's own 275 tests, run with the trace hook: every transition they execute is judged
+        stages.repo_suite_traces(ctx, ["C03."])
